@@ -56,30 +56,34 @@ var (
 	SBool = &Sort{Name: "Bool", Kind: KBool}
 	SInt  = &Sort{Name: "Int", Kind: KInt}
 	SReal = &Sort{Name: "Real", Kind: KReal}
-	SStr  = &Sort{Name: "GoStr", Kind: KString}
+	SStr  = &Sort{Name: "String", Kind: KString}
 )
 
-var bvSorts = map[int]*Sort{}
+var bvSorts = map[int]*Sort{8: mkBV(8), 16: mkBV(16), 32: mkBV(32), 64: mkBV(64)}
+
+func mkBV(w int) *Sort { return &Sort{Name: fmt.Sprintf("(_ BitVec %d)", w), Kind: KBV, Width: w} }
 
 func SBV(w int) *Sort {
 	if s, ok := bvSorts[w]; ok {
 		return s
 	}
-	s := &Sort{Name: fmt.Sprintf("(_ BitVec %d)", w), Kind: KBV, Width: w}
-	bvSorts[w] = s
-	return s
+	return mkBV(w)
 }
 
-var arraySorts = map[string]*Sort{}
-
+// SArray: SMT array sorts are not cached: the element sort of the same name differs between VCs of different
+// modes (a struct with int64 fields is over Int in one and over Real in another). Compare sorts with sameSort.
 func SArray(k, v *Sort) *Sort {
-	n := fmt.Sprintf("(Array %s %s)", k.Name, v.Name)
-	if s, ok := arraySorts[n]; ok {
-		return s
+	return &Sort{Name: fmt.Sprintf("(Array %s %s)", k.Name, v.Name), Kind: KArray, Key: k, Elem: v}
+}
+
+func sameSort(a, b *Sort) bool {
+	if a == b {
+		return true
 	}
-	s := &Sort{Name: n, Kind: KArray, Key: k, Elem: v}
-	arraySorts[n] = s
-	return s
+	if a == nil || b == nil {
+		return false
+	}
+	return a.Name == b.Name
 }
 
 // Term is an SMT term as text plus its sort and, when known, its constant value.
